@@ -39,17 +39,24 @@ fn all_poison(p: *const u8, len: usize) -> Option<usize> {
     s.iter().position(|b| *b != POISON)
 }
 
-pub struct TwoViews {
+/// The two mappings of one memfd. Creating them costs several system calls, so every worker
+/// thread creates them once and re-uses them for all its cases (`TwoViews::new` refills the bytes
+/// with the "fresh memory" pattern).
+struct Mapping {
     fd: i32,
     len: usize,
     views: [*mut u8; 2],
-    active: usize,
-    decoy: bool,
 }
 
-impl TwoViews {
-    pub fn new(size: usize, decoy: bool) -> Self {
-        let len = size.max(1).div_ceil(4096) * 4096;
+const MAPPING_LEN: usize = 8192;
+
+thread_local! {
+    static MAPPING: std::cell::RefCell<Option<Mapping>> = const { std::cell::RefCell::new(None) };
+}
+
+impl Mapping {
+    fn create() -> Self {
+        let len = MAPPING_LEN;
         unsafe {
             let fd = libc::memfd_create(c"verif-c14".as_ptr(), libc::MFD_CLOEXEC);
             assert!(fd >= 0, "memfd_create failed: {}", std::io::Error::last_os_error());
@@ -62,16 +69,11 @@ impl TwoViews {
             let a = map();
             let b = map();
             assert!(a != b);
-            std::ptr::write_bytes(a, FRESH, len);
-            let v = TwoViews { fd, len, views: [a, b], active: 0, decoy };
-            if decoy {
-                v.make_decoy(1);
-            }
-            v
+            Mapping { fd, len, views: [a, b] }
         }
     }
 
-    fn make_decoy(&self, i: usize) {
+    fn make_decoy(&self, i: usize, poisoned: usize) {
         unsafe {
             let p = libc::mmap(
                 self.views[i] as *mut libc::c_void,
@@ -82,7 +84,7 @@ impl TwoViews {
                 0,
             );
             assert!(p as *mut u8 == self.views[i], "mmap(decoy) failed: {}", std::io::Error::last_os_error());
-            std::ptr::write_bytes(self.views[i], POISON, self.len);
+            std::ptr::write_bytes(self.views[i], POISON, poisoned);
         }
     }
 
@@ -99,15 +101,50 @@ impl TwoViews {
             assert!(p as *mut u8 == self.views[i], "mmap(view) failed: {}", std::io::Error::last_os_error());
         }
     }
+}
+
+impl Drop for Mapping {
+    fn drop(&mut self) {
+        unsafe {
+            libc::munmap(self.views[0] as *mut libc::c_void, self.len);
+            libc::munmap(self.views[1] as *mut libc::c_void, self.len);
+            libc::close(self.fd);
+        }
+    }
+}
+
+pub struct TwoViews {
+    map: Option<Mapping>,
+    /// bytes in use (rounded up to 64); the decoy is poisoned and checked over this range
+    used: usize,
+    active: usize,
+    decoy: bool,
+}
+
+impl TwoViews {
+    pub fn new(size: usize, decoy: bool) -> Self {
+        let used = size.max(1).div_ceil(64) * 64;
+        assert!(used <= MAPPING_LEN, "structure of {size} bytes does not fit the mapping");
+        let map = MAPPING.with(|m| m.borrow_mut().take()).unwrap_or_else(Mapping::create);
+        unsafe { std::ptr::write_bytes(map.views[0], FRESH, used) };
+        if decoy {
+            map.make_decoy(1, used);
+        }
+        TwoViews { map: Some(map), used, active: 0, decoy }
+    }
+
+    fn map(&self) -> &Mapping {
+        self.map.as_ref().unwrap()
+    }
 
     pub fn base(&self) -> *mut u8 {
-        self.views[self.active]
+        self.map().views[self.active]
     }
 
     fn check_decoy(&self) -> Result<(), Failure> {
         if self.decoy {
             let other = 1 - self.active;
-            if let Some(off) = all_poison(self.views[other], self.len) {
+            if let Some(off) = all_poison(self.map().views[other], self.used) {
                 return Err(Failure::new(
                     "mem.stale_write_into_other_view",
                     format!("the address range of the view that was not in use was written at offset {off} (an absolute address of the other mapping was used)"),
@@ -122,8 +159,8 @@ impl TwoViews {
         let new = 1 - old;
         if self.decoy {
             self.check_decoy()?;
-            self.map_shared(new);
-            self.make_decoy(old);
+            self.map().map_shared(new);
+            self.map().make_decoy(old, self.used);
         }
         self.active = new;
         Ok(())
@@ -132,11 +169,11 @@ impl TwoViews {
 
 impl Drop for TwoViews {
     fn drop(&mut self) {
-        unsafe {
-            libc::munmap(self.views[0] as *mut libc::c_void, self.len);
-            libc::munmap(self.views[1] as *mut libc::c_void, self.len);
-            libc::close(self.fd);
+        let map = self.map.take().unwrap();
+        if self.decoy {
+            map.map_shared(1 - self.active);
         }
+        MAPPING.with(|m| *m.borrow_mut() = Some(map));
     }
 }
 
@@ -186,15 +223,6 @@ impl<T> Mem<T> {
             Backing::Copy { block, .. } => block.base(),
             Backing::Views(v) => v.base(),
         }
-    }
-
-    pub fn size(&self) -> usize {
-        self.size
-    }
-
-    #[allow(clippy::mut_from_ref)]
-    pub fn get(&self) -> &mut T {
-        unsafe { &mut *(self.base() as *mut T) }
     }
 
     fn check_previous(&self) -> Result<(), Failure> {
